@@ -364,7 +364,7 @@ class Kernel(object):
                     if p.nops - 1 != f['at']:
                         continue
                 else:
-                    if f.get('path') is not None and not _pmatch(f['path'], ev[3], ev[4]):
+                    if f.get('path') is not None and f['path'] != ev[3]:
                         continue
                     k = f['_n']
                     f['_n'] += 1
@@ -496,7 +496,14 @@ def _simple(name, mut_cls=None, npaths=1, result=None):
             dfd = kw.get('dir_fd')
             if dfd is not None and isinstance(vs, str) and not vs.startswith('/'):
                 vs = posixpath.join(K.cur.fds.get(dfd, '<fd %d>' % dfd), vs)
-            ev = K.begin(name, vs)
+            if name == 'access':
+                # access(2) reports every error as 'no': os.access never raises
+                try:
+                    ev = K.begin(name, vs)
+                except OSError:
+                    return False
+            else:
+                ev = K.begin(name, vs)
             try:
                 res = orig(rp, *a, **kw)
             except OSError as e:
